@@ -23,7 +23,7 @@ func init() {
 		Fn:          c15,
 		Level:       "exploration",
 		Builds:      []string{"default", "purego"},
-		Rule:        "the same driver source is compiled with and without -tags purego; for every catalogue column built on a two-variant codec (32 generated + Bool + UUID, plus Point/Interval/wrappers that sit on them) it decodes generated raw inputs (exhaustive: every value of 8- and 16-bit element types, every input byte 0..255 for Bool; boundary+random limbs for wider ones; row counts 0,1,2,3,7,8,9,1000; inputs short by 1..size bytes) into {fresh, used-then-reset} columns and re-encodes through EncodeColumn into {empty, junk-prefixed 1..17 B} buffers and WriteColumn+Flush (prefix chained, writer buffer pre-filled before NewWriter, bytes appended directly between two columns); each step appends a transcript line (case id -> hash of bytes / values / error class); the parent aligns both transcripts by case id. Non-trivial = >=1 row; distinct = transcript case ids with rows>0",
+		Rule:        "the same driver source is compiled with and without -tags purego; for every catalogue column built on a two-variant codec (32 generated + Bool + UUID, plus Point/Interval/wrappers that sit on them) it decodes generated raw inputs (exhaustive: every value of 8- and 16-bit element types, every input byte 0..255 for Bool; boundary+random limbs for wider ones; row counts 0,1,2,3,7,8,9,1000; inputs short by 1..size bytes; columns of 3 x 128 KiB cut at 0, 1, 4 KiB, 64 KiB, 128 KiB +-1, 256 KiB, 384 KiB and just before the end; errors are compared by class nil / io.EOF / io.ErrUnexpectedEOF / other) into {fresh, used-then-reset} columns and re-encodes through EncodeColumn into {empty, junk-prefixed 1..17 B} buffers and WriteColumn+Flush (prefix chained, writer buffer pre-filled before NewWriter, bytes appended directly between two columns); each step appends a transcript line (case id -> hash of bytes / values / error class); the parent aligns both transcripts by case id. Non-trivial = >=1 row; distinct = transcript case ids with rows>0",
 		Assumptions: []string{"error classes compared are {nil, short read, bad value}; after a failed decode only the error class is compared", "ColRawOf exists only in the default build and is excluded"},
 		MinDistinct: 500,
 		Post:        c15Post,
@@ -35,8 +35,12 @@ func errClass(err error) string {
 	switch {
 	case err == nil:
 		return "nil"
-	case errors.Is(err, io.EOF) || errors.Is(err, io.ErrUnexpectedEOF) || strings.Contains(err.Error(), "EOF"):
-		return "short-read"
+	case errors.Is(err, io.ErrUnexpectedEOF):
+		return "short-read(io.ErrUnexpectedEOF)"
+	case errors.Is(err, io.EOF):
+		return "short-read(io.EOF)"
+	case strings.Contains(err.Error(), "EOF"):
+		return "short-read(text only)"
 	}
 	return "bad-value"
 }
@@ -153,6 +157,28 @@ func c15(r *core.Run) {
 			}
 			short := 1 + rng.Intn(w)
 			c15Decode(t, e, id+fmt.Sprintf("|short-by-%d", short), raw[:len(raw)-short], rows, false, false)
+		}
+		// --- columns larger than the reader's buffer, cut at and around multiples of 64 KiB / 128 KiB ---
+		ci++
+		if r.Take(ci) {
+			rng := r.Rand(ci, "bigraw")
+			rows := (3*131072)/w + 5
+			raw := make([]byte, rows*w)
+			rng.Read(raw)
+			if ty.Base == "Bool" {
+				for i := range raw {
+					raw[i] &= 1
+				}
+			}
+			id := fmt.Sprintf("%03d|%s|%s|big|rows=%d", ei, e.Type, e.Kind, rows)
+			if !strings.HasPrefix(e.Kind, "ColEnum(") {
+				c15Decode(t, e, id+"|whole", raw, rows, false, false)
+			}
+			for _, cut := range []int{0, 1, 4096, 65536, 131071, 131072, 131073, 262144, 393216, len(raw) - w, len(raw) - 1} {
+				if cut >= 0 && cut < len(raw) {
+					c15Decode(t, e, id+fmt.Sprintf("|cut-at-%d", cut), raw[:cut], rows, false, false)
+				}
+			}
 		}
 	}
 }
